@@ -47,6 +47,18 @@ func c12Mutations(seed int64, inv *protocoltypes.Group) []c12Mut {
 	flipAll("public-key", func(g *protocoltypes.Group) *[]byte { return &g.PublicKey })
 	flipAll("secret", func(g *protocoltypes.Group) *[]byte { return &g.Secret })
 	flipAll("signature", func(g *protocoltypes.Group) *[]byte { return &g.SecretSig })
+	// bytes appended (a length change leaves every original bit in place)
+	for _, extra := range [][]byte{{0}, {0x42}, bytes.Repeat([]byte{0}, 32)} {
+		extra := extra
+		for _, f := range []struct {
+			name string
+			get  func(g *protocoltypes.Group) *[]byte
+		}{{"public-key", func(g *protocoltypes.Group) *[]byte { return &g.PublicKey }}, {"secret", func(g *protocoltypes.Group) *[]byte { return &g.Secret }}, {"signature", func(g *protocoltypes.Group) *[]byte { return &g.SecretSig }}} {
+			g := proto.Clone(inv).(*protocoltypes.Group)
+			*f.get(g) = append(append([]byte{}, (*f.get(g))...), extra...)
+			muts = append(muts, c12Mut{"extended-" + f.name, g})
+		}
+	}
 	for _, gt := range []int32{0, 1, 2, 4, -1, 99} {
 		g := proto.Clone(inv).(*protocoltypes.Group)
 		g.GroupType = protocoltypes.GroupType(gt)
